@@ -21,6 +21,25 @@ for log in sys.argv[1:]:
                     mm = re.search(r"replays/C\d+-([a-z0-9_]+)-", tail)
                     kind = "caught with a failing input" + (f" ({mm.group(1)})" if mm else "")
             res.setdefault(cur, {})[m.group(1)] = kind.lower() if kind in ("MISSED", "ERROR") else kind
+rev = {}
+for log in sys.argv[1:]:
+    cur = None
+    for line in open(log):
+        m = re.match(r"== revert (\w+)", line)
+        if m:
+            cur = m.group(1); continue
+        if line.startswith("== "):
+            cur = None; continue
+        m = re.match(r"(C\d+): (CAUGHT|MISSED|ERROR)(.*)", line)
+        if m and cur:
+            kind = m.group(2).lower()
+            if kind == "caught":
+                if "no-failing-input-found" in m.group(3):
+                    kind = "caught (broken pin/tie, no-failing-input-found)"
+                else:
+                    mm = re.search(r"replays/C\d+-([a-z0-9_]+)-", m.group(3))
+                    kind = "caught with a failing input" + (f" ({mm.group(1)})" if mm else "")
+            rev.setdefault(cur, {})[m.group(1)] = kind
 rows = []
 for d in sorted(glob.glob(os.path.join(root, "seeded", "*"))):
     mp = os.path.join(d, "meta.json")
@@ -29,13 +48,23 @@ for d in sorted(glob.glob(os.path.join(root, "seeded", "*"))):
     meta = json.load(open(mp))
     m = re.match(r"(C\d+)-(C\d+)-m(\d+)", meta["id"])
     src, n = m.group(2), m.group(3)
-    r = res.get((src, n), {})
-    meta["results"] = r
-    meta["caught_by"] = sorted(p for p, v in r.items() if v.startswith("caught"))
-    json.dump(meta, open(mp, "w"), indent=1)
+    r = res.get((src, n))
+    if r is None:   # not in these logs: keep what is recorded
+        r = meta.get("results", {})
+    else:
+        meta["results"] = r
+        meta["caught_by"] = sorted(p for p, v in r.items() if v.startswith("caught"))
+        json.dump(meta, open(mp, "w"), indent=1)
     what = ""
     rd = os.path.join(d, "AUTHOR_README.md")
     rows.append((meta["id"], meta["property"], "; ".join(f"{p}: {v}" for p, v in sorted(r.items()))))
 print("| seeded change | breaks | outcome of `./check` (quick tier) |\n|---|---|---|")
 for r in rows:
     print(f"| {r[0]} | {r[1]} | {r[2]} |")
+if rev:
+    fixes = {f["commit"]: f for f in json.load(open(os.path.join(root, "known_findings.json")))["findings"] if f.get("commit")}
+    print("\n| repair reverted | defect | outcome of `./check` (quick tier) |\n|---|---|---|")
+    for c, r in rev.items():
+        f = fixes.get(c, {})
+        print(f"| {c} | {f.get('id','?')} ({f.get('property','?')}) | " + "; ".join(f"{p}: {v}" for p, v in sorted(r.items())) + " |")
+
